@@ -262,11 +262,33 @@ def check_main(rep, prog, main, algo, pos=False):
                 continue
             n = ek[2]
             whatx = 'exit of an MPI main is taken by all ranks or none'
-            bad = [c for (c, pol, _b) in cfg.guards_of(n) if common.mentions_rank(c, rank_vars)]
+            badg = [(c, pol, gb) for (c, pol, gb) in cfg.guards_of(n) if common.mentions_rank(c, rank_vars)]
+            bad = [c for (c, pol, gb) in badg]
             if bad:
-                rep.violation('R11b', n, main, whatx,
-                              '%s is control dependent on the rank: `%s` (line %d); the other ranks continue into collectives' % (
-                                  ek[0], bad[0].text(60), bad[0].line), key='R11b|%s|rank-exit' % tu)
+                # harmful only if the ranks that do NOT take this exit go on to a collective operation (they would wait for the one that left);
+                # when only local work follows on both sides, every rank reaches its own exit
+                from . import c04
+                collfns = c04.collective_functions(prog)
+                later_coll = None
+                for (c, pol, gb) in badg:
+                    for s_ in gb.succ:
+                        if s_ is None:
+                            continue
+                        for rb in cfg.reachable_blocks(s_):
+                            for e_ in cfg.blocks[rb].elems:
+                                x = main.nodes.get(e_) if e_ is not None and e_ >= 0 else None
+                                if x is None:
+                                    continue
+                                for y in x.walk():
+                                    if c04.is_collective(y) or (y.k in ex.CALL_KINDS and y.callee_id in collfns):
+                                        later_coll = later_coll or y
+                if later_coll is None:
+                    rep.ok('R11b', n, main, whatx, 'the exit depends on the rank (`%s`) but no collective operation is reachable after that branch: every rank '
+                           'finishes with local work only' % bad[0].text(40))
+                else:
+                    rep.violation('R11b', n, main, whatx,
+                                  '%s is control dependent on the rank: `%s` (line %d); the other ranks continue into collectives (`%s`, line %d)' % (
+                                      ek[0], bad[0].text(60), bad[0].line, later_coll.text(40), later_coll.line), key='R11b|%s|rank-exit' % tu)
             else:
                 rep.ok('R11b', n, main, whatx)
 
@@ -391,6 +413,7 @@ def run(rep, tier):
         if not ms:
             rep.analysis_broken('%s has no main' % tu)
         for m in ms:
+            m = common.driver_body(prog, m)
             check_main(rep, prog, m, algo)
             c20.knob_zero(rep, prog, m, 'R11d')
     # positive example: the pre-fix MPI shape and a gate that falls through
